@@ -64,6 +64,14 @@ impl DateTime {
         }
     }
 
+    /// Like [`DateTime::with_offset`], but `None` when the local date-time in `offset` falls
+    /// outside the supported range (instead of panicking).
+    pub fn checked_with_offset(self, offset: time::UtcOffset) -> Option<Self> {
+        self.inner
+            .checked_to_offset(offset)
+            .map(|inner| Self { inner })
+    }
+
     /// Retrieves a date component.
     pub fn date(self) -> Date {
         Date {
